@@ -14,6 +14,9 @@ NPos(k) == CASE k = "named_struct" -> 3 [] k = "tuple_struct" -> 1 [] k = "unit_
              [] k \in ExprKinds -> 2
              \* an alias / a const whose text mentions a path through a module called `union` (a contextual keyword only)
              [] k \in {"alias_union_path", "const_union_path"} -> 0
+             \* the named struct written inside a macro_rules! wrapper that forwards every attribute through $(#[$a:meta])* fragments
+             \* (the attributes reach #[typeshare] inside invisible groups)
+             [] k = "named_struct_via_macro" -> 3
 Init == c \in [kind : Kinds, outer : OuterArgs, helper : Helpers, mix : Mixes, at : SUBSET (1..MaxPos)]
 Next == UNCHANGED c
 InScope == c.at \subseteq 1..NPos(c.kind)
@@ -50,7 +53,7 @@ At(i, pos) == MixBefore \o (IF i \in c.at THEN HelperAttrs ELSE <<>>) \o MixAfte
 M(name, i, pos, fields) == [name |-> name, attrs |-> At(i, pos), fields |-> fields]
 F(name, i) == [name |-> name, attrs |-> At(i, "field"), fields |-> <<>>]
 Members ==
-    CASE c.kind = "named_struct" -> << M("alpha", 1, "field", <<>>), M("beta", 2, "field", <<>>), M("gamma", 3, "field", <<>>) >>
+    CASE c.kind \in {"named_struct", "named_struct_via_macro"} -> << M("alpha", 1, "field", <<>>), M("beta", 2, "field", <<>>), M("gamma", 3, "field", <<>>) >>
       [] c.kind = "tuple_struct" -> << M("0", 1, "tuple_field", <<>>) >>
       [] c.kind = "enum" -> << M("Unit", 1, "variant", <<>>), M("Tuple", 2, "variant", << F("0", 3) >>), M("Named", 0, "variant", << F("inner", 4) >>) >>
       [] c.kind = "union" -> << M("a", 1, "field", <<>>), M("b", 2, "field", <<>>) >>
